@@ -31,6 +31,13 @@ pub mod anyhow {
     pub type Error = super::AnyhowError;
 }
 
+/// std Result::and_then (A-std): the closure runs on the Ok value; an Err passes through
+pub assume_specification<T, E, U, F: FnOnce(T) -> std::result::Result<U, E>> [std::result::Result::<T, E>::and_then::<U, F>] (x: std::result::Result<T, E>, op: F) -> (r: std::result::Result<U, E>)
+    requires x is Ok ==> op.requires((x->Ok_0,)),
+    ensures
+        x is Ok ==> op.ensures((x->Ok_0,), r),
+        x is Err ==> r is Err;
+
 /// std Result::or (A-std)
 pub assume_specification<T, E, F> [ std::result::Result::<T, E>::or::<F> ] (a: std::result::Result<T, E>, b: std::result::Result<T, F>) -> (r: std::result::Result<T, F>)
     where T: std::marker::Destruct, E: std::marker::Destruct, F: std::marker::Destruct,
